@@ -197,7 +197,7 @@ def run_case(prop, case, keymaps):
                         hits.append({'prop': prop, 'keymap': label,
                                      'what': 'calls f%r and f%r bind identically but get different keys under %s: %r vs %r'
                                              % (_show(a0, k0), _show(a1, k1), label, x, y),
-                                     'calls': [[a0, k0], [a1, k1]]})
+                                     'calls': [[a0, k0], [a1, k1]], 'keys': [x, y]})
     if prop in ('C10', 'C11'):
         b0 = case['bindings'][0]
         for bi, lst in by_binding.items():
